@@ -1,3 +1,4 @@
+import collections
 import re
 
 from vlib import Prop
@@ -33,9 +34,13 @@ def pint(prefix_bits, flags, n):
     return out
 
 
+def raw(x):
+    return x if isinstance(x, bytes) else x.encode()
+
+
 def lit(name, value):
-    """literal field line with literal name, no Huffman"""
-    nb, vb = name.encode(), value.encode()
+    """literal field line with literal name (str or bytes; may be empty, may start with ':'), no Huffman"""
+    nb, vb = raw(name), raw(value)
     return pint(3, 0x20, len(nb)) + list(nb) + pint(7, 0x00, len(vb)) + list(vb)
 
 
@@ -46,7 +51,35 @@ def nameref(idx, value):
 
 
 def fsize(fields):
-    return sum(len(n) + len(v) + 32 for n, v in fields)
+    return sum(len(raw(n)) + len(raw(v)) + 32 for n, v in fields)
+
+
+# Malformed sections (validly encoded): the classes of C12 (tools/props/c12.py) that C12's oracle H3.Spec.Headers refuses
+# AND the code refuses.  Not used: a pseudo-header field behind a regular one, a repeated pseudo-header field, a missing
+# :scheme / :path (R-12: not demanded, the code accepts the first two), connection-specific fields (h3 does not look).
+# class -> list of edits; an edit = ("add", name, value) insert a field | ("drop", name) | ("set", name, value)
+BAD_ANY = {   # head of both kinds and trailers
+    "upper": [("add", n, "v") for n in ("X-A", "Content-Type", "hosT", "A")],
+    "emptyname": [("add", "", "v"), ("add", "", "")],
+    "badname": [("add", n, "v") for n in (b"a b", b"a\x00", b"a:b", b"a(b", b"a\x7f", b"a\x80", b'a"b', b" a", b"a\r\n", b"a=b", b"\xc3\xa9")],
+    "ctlvalue": [("add", "x-c", v) for v in (b"a\rb", b"\n", b"\x00", b"a\x7fb", b"\x1f", b"x\r\ny: z", b"\x0b", b"a\x00")],
+    "unkpseudo": [("add", n, "v") for n in (":x", ":unknown", ":Method", ":", ":version", ":host", ":methodx", ":STATUS")],
+}
+BAD_REQ = {
+    "nomethod": [("drop", ":method")],
+    "badmethod": [("set", ":method", v) for v in (b"G T", b"", b"GET\x00", b"G(T", b"G/T")],
+    "otherkind": [("add", ":status", "200"), ("add", ":status", "404")],
+    "noauthority": [("drop", ":authority")],
+    "hostcontra": [("add", "host", "b.c"), ("add", "host", "a.b.c")],
+}
+BAD_RESP = {
+    "nostatus": [("drop", ":status")],
+    "badstatus": [("set", ":status", v) for v in (b"2x0", b"20", b"099", b"", b"1000", b" 200", b"20\x00")],
+    "otherkind": [("add", ":method", "GET"), ("add", ":path", "/"), ("add", ":scheme", "https"), ("add", ":authority", "a.b")],
+}
+BAD_TRL = {
+    "trlpseudo": [("add", ":status", "200"), ("add", ":method", "GET"), ("add", ":path", "/"), ("add", ":authority", "a.b")],
+}
 
 
 def frame(ty, payload):
@@ -109,21 +142,32 @@ class C07(Prop):
                   "and the product H3.Iso, whose prediction for every scenario line is compared with the real h3 endpoint by this run "
                   "(model half of the driver = H3.Iso run on the line); header validity/size is an oracle parameter (C10/C11/C12); "
                   "granularity = one poll of one task or one transport event; write back-pressure = a byte credit per stream (the "
-                  "431 answer of an oversized request is written without it), grease frame off; real "
+                  "431 answer of an oversized request is modelled as one write that does not wait: ten bytes, the first write of "
+                  "its stream, and the scenarios give every stream at least 32 bytes of initial credit - a 431 waiting for credit "
+                  "inside resolve_request is not modelled; a 431 refused because the peer sent STOP_SENDING is), grease frame off; "
+                  "header validation in the model half = the C12 model H3.Headers with the http crate's scheme / authority / path "
+                  "parsers instantiated for the values the scenarios use (Drv/C07.lean modelHttp); real "
                   "scheduling and timing are not modelled. SimQuic scenario runs with 2..4 concurrent requests, any subset faulted, "
                   "random interleavings and executor orders")
     rule = ("2..4 concurrent requests on one connection, both roles; every request has its own head (method / path / status, a "
             "marker header naming the stream), its own body cut into DATA frames (empty ones included) and random chunks, often its "
             "own trailers, and frames of unknown / reserved types (with payload, cut across deliveries) before the HEADERS, between "
             "the body frames, before and after the trailers; each is healthy or suffers ONE fault: RESET with an arbitrary code at a "
-            "random byte offset, STOP_SENDING, a validly encoded malformed head or trailer section, an oversized head or trailer "
-            "section, FIN before HEADERS (bare or behind unknown frames); the application's calls (head, then rm or rb+rt; "
+            "random byte offset below the end of the message, exactly at its end instead of the FIN (sometimes a FIN behind it), "
+            "or behind the FIN of the complete message (SimQuic never looks at it: both answers accepted), STOP_SENDING, a "
+            "validly encoded malformed head or trailer section of one of the classes of C12 that its oracle and the code refuse "
+            "(upper-case / empty / non-token name, control byte in a value, undefined pseudo-header field, one of the other kind "
+            "of message, :method / :status missing or illegal, no authority, Host contradicting :authority, pseudo-header field "
+            "in trailers), an oversized head or trailer section, on a server also an oversized head whose 431 answer meets a "
+            "STOP_SENDING, FIN before HEADERS (bare or behind unknown frames); the application's calls (head, then rm or rb+rt; "
             "send_response / send_data / send_trailers / finish) are placed before, between and after the deliveries and the fault "
             "(early / late / random merge per stream); a third of the scenarios run under write back-pressure (wc=32..64, credit "
-            "granted in pieces); ops of different streams interleaved at random, executor order seeds; head results, trailers and "
+            "granted in pieces; also next to oversized requests on a server); ops of different streams interleaved at random, executor order seeds; head results, trailers and "
             "the bytes written are compared in full; non-trivial = at least one healthy and one faulted stream in the scenario")
     trusted = ["the decision tables of the request receive path (H3.Gen.ReqArms, FirstFrame, FrameErrCodes, FrameDispatch) are re-read from the sources on this run and the request machine of H3.Iso is proved to follow them (H3.Lemmas.GenAgreeReq/GenAgreeFrame, rebuilt on this run)"]
-    assumptions = ["a RESET may discard data the application had not read yet (QUIC); the specification fixes only the error kind on a faulted stream (the model predicts every answer on SimQuic, which keeps the data before the reset)",
+    assumptions = ["a RESET behind the FIN of a completely delivered message may be ignored (RFC 9000 3.2 'Data Recvd'; SimQuic does) or reported: the specification accepts the healthy answer and the stream-level error with its code; a FIN behind a RESET is ignored",
+                   "which sections are malformed is C12's oracle (H3.Spec.Headers.WellFormedRequest / Response / Trailers), applied only to sections whose :scheme / :authority / :path / Host values are of the plain shapes all readings accept; R-12 cases (repeated pseudo-header fields, pseudo-header fields behind regular ones, missing :scheme / :path) and connection-specific fields get no opinion",
+                   "a RESET may discard data the application had not read yet (QUIC); the specification fixes only the error kind on a faulted stream (the model predicts every answer on SimQuic, which keeps the data before the reset)",
                    "R-07: the documented receive pattern of a request ends with the first error one of its receive calls answers (cfg rxhalt=1: later receive calls are not made); send calls on the same request go on",
                    "the code a client reports for a response stream that ends before HEADERS is H3_MESSAGE_ERROR (RFC 9114 4.1.2, R-07)"]
 
@@ -180,6 +224,8 @@ class C07(Prop):
         kinds = []
         if any(re.match(r"^r\d+:", o) for o in ops):
             kinds.append("reset")
+        if any(re.match(r"^r\d+:", o) and ("f" + o[1:].split(":")[0]) in ops[:i] for i, o in enumerate(ops)):
+            kinds.append("reset>fin")
         if any(re.match(r"^x\d+:", o) for o in ops):
             kinds.append("stop")
         for k in ("stream:H3_MESSAGE_ERROR", "stream:H3_REQUEST_INCOMPLETE", "toobig"):
@@ -221,27 +267,50 @@ class C07(Prop):
         return [(":status", "%d" % rng.choice(sorted(STATUSES))), ("x-id", "%d" % sid)]
 
     def encode(self, fields):
+        """statically indexed / name-referenced where the table has the line, else literal with literal name"""
         out = [0, 0]
         for n, v in fields:
-            if n == ":method":
+            if n == ":method" and v in METHODS:
                 out.append(METHODS[v])
-            elif n == ":scheme":
+            elif n == ":scheme" and v == "https":
                 out.append(0xd7)
-            elif n == ":authority":
+            elif n == ":authority" and isinstance(v, str):
                 out += nameref(0, v)
-            elif n == ":path":
+            elif n == ":path" and isinstance(v, str):
                 out += nameref(1, v)
-            elif n == ":status":
+            elif n == ":status" and isinstance(v, str) and v.isdigit() and int(v) in STATUSES:
                 out.append(STATUSES[int(v)])
             else:
                 out += lit(n, v)
         return out
 
-    def section(self, fields, kind, mfs):
-        """kind: good | malformed (upper-case field name, RFC 9114 4.2) | oversized (over mfs)"""
+    def malform(self, rng, fields, pos):
+        """one malformed variant of a good section; pos: request | response | trailers.  Returns (class, fields)."""
+        table = dict(BAD_ANY)
+        table.update({"request": BAD_REQ, "response": BAD_RESP, "trailers": BAD_TRL}[pos])
+        cls = rng.choice(sorted(table))
+        ed = rng.choice(table[cls])
+        self.gen_stats["malformed %s: %s" % (pos, cls)] += 1
+        fields = list(fields)
+        npseudo = sum(1 for n, _ in fields if isinstance(n, str) and n.startswith(":"))
+        if ed[0] == "drop":
+            fields = [f for f in fields if f[0] != ed[1]]
+        elif ed[0] == "set":
+            fields = [(n, ed[2]) if n == ed[1] else (n, v) for n, v in fields]
+        else:
+            name = ed[1]
+            if raw(name).startswith(b":"):
+                at = rng.randrange(0, npseudo + 1)            # among the pseudo-header fields (never behind a regular one)
+            else:
+                at = rng.randrange(npseudo, len(fields) + 1)  # among the regular fields
+            fields.insert(at, (name, ed[2]))
+        return cls, fields
+
+    def section(self, fields, kind, mfs, rng=None, pos=None):
+        """kind: good | malformed (one class of C12, RFC 9114 4.2 / 4.3) | oversized (over mfs)"""
         fields = list(fields)
         if kind == "malformed":
-            fields.append(("X-A", "v"))
+            _, fields = self.malform(rng, fields, pos)
         if kind == "oversized":
             fields.append(("x", "v" * (mfs - fsize(fields) + 9)))
         return self.encode(fields)
@@ -267,8 +336,9 @@ class C07(Prop):
         else:
             if rng.random() < 0.35:
                 wire += self.unknown(rng)
-            hk = kind if kind in ("malformed", "oversized") else "good"
-            wire += frame(1, self.section(self.head_fields(server, sid, rng), hk, mfs))
+            hk = {"malformed": "malformed", "oversized": "oversized", "oversizedstop": "oversized"}.get(kind, "good")
+            wire += frame(1, self.section(self.head_fields(server, sid, rng), hk, mfs, rng, "request" if server else "response"))
+            hdr_end = len(wire)
             pos = 0
             while pos < len(body) or (pos == 0 and rng.random() < 0.5):
                 if rng.random() < 0.25:
@@ -281,14 +351,22 @@ class C07(Prop):
             if rng.random() < 0.25:
                 wire += self.unknown(rng, 1)
             tk = {"badtrailers": "malformed", "bigtrailers": "oversized"}.get(kind)
-            if tk or (kind in ("none", "stop", "reset") and rng.random() < 0.45):
-                wire += frame(1, self.section([("x-t", "%d" % sid)] + ([("x-u", "t")] if rng.random() < 0.3 else []), tk or "good", mfs))
+            if tk or (kind in ("none", "stop", "reset", "resetend", "resetfin") and rng.random() < 0.45):
+                wire += frame(1, self.section([("x-t", "%d" % sid)] + ([("x-u", "t")] if rng.random() < 0.3 else []), tk or "good", mfs, rng, "trailers"))
                 if rng.random() < 0.3:
                     wire += self.unknown(rng, 1)
         opener = ["o%d" % sid] if server else []
+        self.gen_stats["%s request of kind %s" % ("server" if server else "client", kind)] += 1
         if kind == "reset":
-            cut = rng.randrange(0, len(wire))       # any byte offset; the message is never complete
+            cut = rng.randrange(0, len(wire))       # any byte offset below the end: the message is never complete
             D = self.chunks(sid, wire[:cut], rng) + ["r%d:%d" % (sid, rng.choice(CODES))]
+        elif kind == "resetend":
+            # RESET exactly at the end of the message bytes, instead of the FIN; sometimes a FIN behind it (ignored:
+            # the stream is in "Reset Recvd")
+            D = self.chunks(sid, wire, rng) + ["r%d:%d" % (sid, rng.choice(CODES))] + (["f%d" % sid] if rng.random() < 0.3 else [])
+        elif kind == "resetfin":
+            # RESET behind the FIN of a complete message (SimQuic: never looked at, the receive side has ended)
+            D = self.chunks(sid, wire, rng) + ["f%d" % sid, "r%d:%d" % (sid, rng.choice(CODES))]
         else:
             D = self.chunks(sid, wire, rng) + ["f%d" % sid]
         R = ["q%d.%s" % (sid, "res" if server else "rr")] + (["q%d.rm" % sid] if rng.random() < 0.6 else ["q%d.rb" % sid, "q%d.rt" % sid])
@@ -300,7 +378,7 @@ class C07(Prop):
         if rng.random() < 0.4:
             S.append("q%d.st:%s" % (sid, rng.choice(TRAILERS_TX)))
         S.append("q%d.fi" % sid)
-        X = ["x%d:%d" % (sid, rng.choice(CODES))] if kind == "stop" else []
+        X = ["x%d:%d" % (sid, rng.choice(CODES))] if kind in ("stop", "oversizedstop") else []
         G = ["gw%d:%d" % (sid, rng.choice([1, 3, 7, 20])) for _ in range(rng.choice([0, 1, 2, 4]))] if wc else []
         # where the calls stand relative to the deliveries and to the fault: all before, all after, anywhere
         mode = rng.choice(["early", "late", "mixed", "mixed"])
@@ -310,6 +388,19 @@ class C07(Prop):
             base = D + R
         else:
             base = self.merge(rng, [D, R])
+        if kind == "oversizedstop" and rng.random() < 0.7:
+            # the STOP_SENDING is there before the 431 answer can be written: in front of the delivery that completes
+            # the HEADERS frame or of the head call, whichever comes last (else: merged in anywhere)
+            got, hidx = 0, len(base)
+            for i, o in enumerate(base):
+                if o.startswith("s%d:" % sid):
+                    got += len(o.split(":")[1]) // 2
+                    if got >= hdr_end:
+                        hidx = i
+                        break
+            at = rng.randrange(0, max(hidx, base.index(R[0])) + 1)
+            base = base[:at] + X + base[at:]
+            X = []
         ops = self.merge(rng, [base, S, X, G])
         if server:
             # the request task understands send commands only once `res` has been posted
@@ -325,14 +416,18 @@ class C07(Prop):
         k = rng.choice([2, 2, 3, 4])
         use_over = rng.random() < 0.3
         mfs = 400
-        kinds = ["none", "reset", "stop", "malformed", "finfirst", "badtrailers"] + (["oversized", "bigtrailers"] if use_over else [])
+        kinds = ["none", "reset", "reset", "resetend", "resetfin", "stop", "malformed", "malformed", "finfirst", "badtrailers"] + \
+                (["oversized", "bigtrailers"] + (["oversizedstop", "oversizedstop"] if server else []) if use_over else [])
         chosen = [rng.choice(kinds) for _ in range(k)]
         if all(c != "none" for c in chosen):
             chosen[rng.randrange(k)] = "none"
-        if all(c == "none" for c in chosen):
-            chosen[rng.randrange(k)] = rng.choice(kinds[1:])
-        # write back-pressure (the 431 answer of an oversized request is not modelled under it)
-        wc = rng.choice([32, 48, 64]) if rng.random() < 0.33 and not (server and "oversized" in chosen) else 0
+        # a RESET behind the FIN is no fault over SimQuic: such a request counts as healthy here; one "none" stays
+        if all(c in ("none", "resetfin") for c in chosen):
+            keep = chosen.index("none")
+            chosen[rng.choice([i for i in range(k) if i != keep])] = rng.choice([x for x in kinds[1:] if x != "resetfin"])
+        # write back-pressure; also with oversized requests on a server: the ten bytes of the 431 answer are the first
+        # write of their stream and fit the initial credit, the neighbours' writes wait for theirs
+        wc = rng.choice([32, 48, 64]) if rng.random() < 0.33 else 0
         cfg = "g0,seed=%d,rxhalt=1" % rng.randrange(1, 10000) + (",mfs=%d" % mfs if use_over else "") + (",wc=%d" % wc if wc else "")
         pre = ["conn.AL", "o2", "s2:000400"] if server else ["drv.W", "o3", "s3:000400"]
         plans = [self.stream_plan(rng, server, 4 * i, chosen[i], mfs, wc) for i in range(k)]
@@ -351,7 +446,11 @@ class C07(Prop):
             merged += ["gw%d:100000" % (4 * i) for i in range(k)]
         return "iso %s %s %s" % (role, cfg, " ".join(merged))
 
+    # what the generator produced on its last run (class of each malformed section, kind of each request)
+    gen_stats = collections.Counter()
+
     def cases(self, tier, rng):
+        self.gen_stats.clear()
         big = tier == "thorough"
         n = 4000 if big else 800
         return [self.one_case(rng, "server") for _ in range(n)] + [self.one_case(rng, "client") for _ in range(n)]
